@@ -100,7 +100,10 @@ def special_pairs():
     ]
     try:
         import numpy as np
-        out += [(np.array([1, 2, 3]), np.array([1, 5, 3])), ({'m': np.array([[1.0, 2.0], [3.0, 4.0]])}, {'m': np.array([[1.0, 2.5], [3.0, 4.0]])})]
+        out += [({'a': np.array([0.5, -7.25, 2.5]), 'b': np.array([1, 2, 3]), 'l': [1, 2]}, {'a': np.array([0.5, -7.25, 2.5]), 'b': np.array([1, 2, 3]), 'l': [1, 2, 3]}),
+                ({'a': np.array([0.5, 1.5], dtype=np.float32), 'b': np.array([1, 2], dtype=np.int8), 'l': ['x']}, {'a': np.array([0.5, 2.5], dtype=np.float32), 'b': np.array([1, 3], dtype=np.int8), 'l': []}),
+                ([np.array([1.5, 2.5]), np.array([1, 2]), [0]], [np.array([1.5, 3.5]), np.array([1, 2]), [0, 1]]),
+                (np.array([1, 2, 3]), np.array([1, 5, 3])), ({'m': np.array([[1.0, 2.0], [3.0, 4.0]])}, {'m': np.array([[1.0, 2.5], [3.0, 4.0]])})]
     except Exception:
         pass
     return out
@@ -112,7 +115,7 @@ def equal_result(r, t2):
         if isinstance(t2, np.ndarray) or isinstance(r, np.ndarray):
             return isinstance(r, np.ndarray) and isinstance(t2, np.ndarray) and r.shape == t2.shape and bool((r == t2).all())
         if isinstance(t2, dict) and any(isinstance(v, np.ndarray) for v in t2.values()):
-            return isinstance(r, dict) and set(r) == set(t2) and all(equal_result(r[k], t2[k]) for k in t2)
+            return isinstance(r, dict) and set(r) == set(t2) and all(DL.py_eq_t(r[k], t2[k]) for k in t2)
     except Exception:
         pass
     return DL.py_eq_t(r, t2)
